@@ -8,7 +8,7 @@ PID = 'C13'
 
 # (driver, extra arguments, scenarios per run in the quick tier; x3 in the thorough tier)
 DRIVERS = [
-    ('drive-kernel', [], 400), ('drive-kernel', ['-ops'], 800), ('drive-park', [], 12), ('drive-subject', [], 400), ('drive-subject', ['-park'], 12),
+    ('drive-kernel', [], 400), ('drive-kernel', ['-chain'], 300), ('drive-kernel', ['-ops'], 800), ('drive-park', [], 12), ('drive-subject', [], 400), ('drive-subject', ['-park'], 12),
     ('drive-share', [], 400), ('drive-share', ['-park'], 12), ('drive-detach', [], 150), ('drive-timed', [], 100), ('drive-ratelimit', [], 60),
 ]
 
